@@ -649,19 +649,24 @@ Definition regroup_fields (r : regroup) (tgt : Z) (m1 : meta) : meta :=
 Definition sec_is_raw (m : meta) (sec : Z) : bool := existsb (fun t => t_raw t =? sec) (m_tables m).
 Definition sec_is_card (m : meta) (sec : Z) : bool := existsb (fun t => t_card t =? sec) (m_tables m).
 
-(* raw_allowed: the user action UpdateSummaryViewSection does not refuse the raw section of a summary table
-   (doBulkUpdateRecord lets tableRef of such a section change); doRemoveColumns skips raw sections.  The
-   columns named by the caller must be columns of the target table; record-card sections of summary tables do
-   not occur (summary tables are created without one). *)
-Definition apply_regroup (raw_allowed : bool) (r : regroup) (m : meta) : res meta :=
-  bind (regroup_target r m) (fun '(m1, tgt) =>
-    if sec_is_card m1 (rg_sec r) then Unmodelled
-    else if negb (cols_of_table m1 (map snd (rg_remap r) ++ rg_new r) tgt) then Unmodelled
-    else if sec_is_raw m1 (rg_sec r) && negb raw_allowed then Unmodelled
-    else Ok (regroup_fields r tgt m1)).
+(* UpdateSummaryViewSection (as a user action and as doRemoveColumns calls it): get_record raises on an unknown
+   section; the raw section of a table is refused (section.isRaw, commit ea10a38).  The columns named by the
+   caller must be columns of the target table; record-card sections of summary tables do not occur (summary
+   tables are created without one); a section that is the raw section of a table it does not show cannot
+   occur in a consistent document. *)
+Definition apply_regroup (r : regroup) (m : meta) : res meta :=
+  match find_section m (rg_sec r) with
+  | None => Fail
+  | Some s =>
+    if is_raw m s then Fail
+    else bind (regroup_target r m) (fun '(m1, tgt) =>
+      if sec_is_card m1 (rg_sec r) || sec_is_raw m1 (rg_sec r) then Unmodelled
+      else if negb (cols_of_table m1 (map snd (rg_remap r) ++ rg_new r) tgt) then Unmodelled
+      else Ok (regroup_fields r tgt m1))
+  end.
 
 Fixpoint apply_regroups (rs : list regroup) (m : meta) : res meta :=
-  match rs with [] => Ok m | r :: t => bind (apply_regroup false r m) (apply_regroups t) end.
+  match rs with [] => Ok m | r :: t => bind (apply_regroup r m) (apply_regroups t) end.
 
 (* the sections doRemoveColumns regroups: for every summary table with a group-by column based on a removed
    column (sorted), its view sections except the raw one *)
@@ -750,38 +755,20 @@ Definition step (o : op) (m : meta) : res meta :=
   | OSetCustom s b => set_custom s b m
   | ORenameTable t name => rename_table t name m
   | OCreateSummary src v gb name gbkinds fkinds => create_summary src v gb name gbkinds fkinds m
-  | ORegroup r => apply_regroup true r m
+  | ORegroup r => apply_regroup r m
   | ORemoveColumnsG cols rs => remove_columns_regroup cols rs m
   | ONoMeta => Ok m
   | OUnmodelled => Unmodelled
   end.
 
-(* the one action that still can break the property: the user action UpdateSummaryViewSection accepts the raw
-   section of a summary table (see Props/C09.v) *)
-Definition regroups_op (o : op) : bool :=
-  match o with ORegroup _ => true | _ => false end.
-
 Fixpoint steps (os : list op) (m : meta) : res meta :=
   match os with [] => Ok m | o :: t => bind (step o m) (steps t) end.
-
-(* the same actions, UpdateSummaryViewSection restricted to sections that are not raw sections *)
-Definition step_guarded (o : op) (m : meta) : res meta :=
-  match o with
-  | ORegroup r => apply_regroup false r m
-  | _ => step o m
-  end.
-
-Fixpoint steps_guarded (os : list op) (m : meta) : res meta :=
-  match os with [] => Ok m | o :: t => bind (step_guarded o m) (steps_guarded t) end.
 
 Definition fuel_of (m : meta) : nat := S (length (m_columns m) + length (m_tables m)).
 
 (* one bundle: the user actions in order, then the auto-removals *)
 Definition run_bundle (os : list op) (m : meta) : res meta :=
   bind (steps os m) (fun m1 => auto_fix (fuel_of m1) m1).
-
-Definition run_bundle_guarded (os : list op) (m : meta) : res meta :=
-  bind (steps_guarded os m) (fun m1 => auto_fix (fuel_of m1) m1).
 
 (* ---------------------------------------------------------------------------------------------- *)
 (* the property: written once, as a boolean.  Used as the invariant of the theorems, evaluated on the real
